@@ -41,7 +41,7 @@ use yverif::rng::Rng;
 // common
 
 fn errno_name(e: Errno) -> String {
-    let table: [(Errno, &str); 16] = [
+    let table: [(Errno, &str); 18] = [
         (Errno::EBADF, "EBADF"),
         (Errno::ENOENT, "ENOENT"),
         (Errno::ENOTDIR, "ENOTDIR"),
@@ -58,6 +58,8 @@ fn errno_name(e: Errno) -> String {
         (Errno::EOVERFLOW, "EOVERFLOW"),
         (Errno::ENFILE, "ENFILE"),
         (Errno::EPERM, "EPERM"),
+        (Errno::ESRCH, "ESRCH"),
+        (Errno::ECHILD, "ECHILD"),
     ];
     for (k, n) in table {
         if k == e {
@@ -293,6 +295,7 @@ where
         + SetRlimit
         + yash_env::system::Pipe
         + yash_env::system::Select
+        + yash_env::system::IsExecutableFile
         + yash_env::system::resource::GetRlimit,
 {
     let cstr = |p: &str| CString::new(p).unwrap();
@@ -489,6 +492,16 @@ where
                         }
                         Err(e) => errno_name(e),
                     }
+                }
+            }
+            // `IsExecutableFile::is_executable_file` (command search); `-` is the empty path
+            ["isx", p] => {
+                if *p == "-" {
+                    format!("={}", sys.is_executable_file(&cstr("")) as u8)
+                } else if guard(sys, p) {
+                    "ESCAPE".to_string()
+                } else {
+                    format!("={}", sys.is_executable_file(&cstr(p)) as u8)
                 }
             }
             ["cwd"] => format!("={}", cwd_show(sys)),
@@ -855,9 +868,9 @@ fn run_seq_case(case: &str) {
 // ------------------------------------------------------------------------------------------
 // system-call generator
 
-const CLASSES: [&str; 13] = [
+const CLASSES: [&str; 15] = [
     "clean", "mkparent", "dirwrite", "emfile", "dotdot", "chdirup", "dup2same", "opendir", "filedot", "lsfull", "pipes",
-    "pipefull", "fdflags",
+    "pipefull", "fdflags", "slashcreate", "cmdsearch",
 ];
 
 struct Gen {
@@ -873,8 +886,10 @@ struct Gen {
 /// (absolute-in-root path, kind): 'f' existing file, 'd' directory, 'm' missing with existing parent,
 /// 'n' below a regular file, 'p' missing parent directory, 'q' existing file or directory (or an error)
 /// named through `.`, `..`, a doubled slash or a regular file used as a directory, 'z' `<regular file>/.`
-/// (ENOTDIR; was divergence D12 until fixed)
-const TARGETS: [(&str, char); 27] = [
+/// (ENOTDIR; was divergence D12 until fixed), 's' any of these followed by one or more slashes (the name must
+/// then be a directory; with O_CREAT Linux answers EISDIR whatever it is — the simulator creates a regular
+/// file, divergence D19, so O_CREAT on these is only generated in class `slashcreate`)
+const TARGETS: [(&str, char); 37] = [
     ("f1", 'f'),
     ("f2", 'f'),
     ("d1/g", 'f'),
@@ -902,6 +917,18 @@ const TARGETS: [(&str, char); 27] = [
     ("./f1", 'q'),
     ("d1//g", 'q'),
     ("d2/../f2", 'q'),
+    ("f1/", 's'),
+    ("d1/", 's'),
+    ("m1/", 's'),
+    ("d1/dd//", 's'),
+    ("d2/n/", 's'),
+    ("d1/g/", 's'),
+    ("nd/x/", 's'),
+    ("d1/dd/../", 's'),
+    // names that nothing ever creates (every O_CREAT through a slash fails): the only ones O_CREAT|O_EXCL is
+    // used on, because an existing regular file / O_EXCL on an existing directory differ in the errno
+    ("ms/", 's'),
+    ("d1/ms//", 's'),
 ];
 
 impl Gen {
@@ -969,6 +996,26 @@ impl Gen {
                     }
                 }
                 'p' => {} // no create below a missing directory
+                's' => {
+                    // O_CREAT through a trailing slash (was divergence D19): only where the errno agrees too,
+                    // see class `slashcreate`
+                    if !dotdot && matches!(target, "ms/" | "d1/ms//" | "d1/" | "d1/dd//") && self.rng.chance(1, 3) {
+                        fl.push('c');
+                        if matches!(target, "ms/" | "d1/ms//") && self.rng.chance(1, 3) {
+                            fl.push('x');
+                        }
+                    }
+                    if writable && self.rng.chance(1, 3) {
+                        fl.push('t');
+                    }
+                    if writable && self.rng.chance(1, 4) {
+                        fl.push('a');
+                    }
+                    // (O_CREAT|O_DIRECTORY is EINVAL on recent kernels: never generated)
+                    if !writable && !fl.contains('c') && self.rng.chance(1, 4) {
+                        fl.push('d');
+                    }
+                }
                 _ => {
                     if self.rng.chance(3, 5) && !(dotdot && kind == 'm') {
                         fl.push('c');
@@ -1103,7 +1150,12 @@ impl Gen {
                 self.push_ls(&path)
             }
             98 => {
-                let op = match self.rng.below(8) {
+                let op = match self.rng.below(9) {
+                    8 => {
+                        let (target, _) = self.target();
+                        let (path, _) = self.rel(target);
+                        format!("isx {path}")
+                    }
                     0 => "cwd".to_string(),
                     1 => "rlim".to_string(),
                     2 => format!("nb {fd}"),
@@ -1216,6 +1268,53 @@ impl Gen {
                     _ => format!("fstat {fd}"),
                 };
                 self.ops.push(op);
+            }
+            // O_CREAT on a path that ends in a slash: EISDIR on Linux whatever the name is (divergence D19)
+            "slashcreate" => {
+                // (was divergence D19 until fixed.)  Three shapes still differ in the errno only — nothing is
+                // created on either side and a script sees status 2 on both — and are left to the shell leg:
+                // an existing regular file (`f1/`: ENOTDIR, Linux EISDIR), an existing directory with O_EXCL
+                // (`d2/` cx: EEXIST, Linux EISDIR), a missing parent (`nd/x/`: EISDIR, Linux ENOENT)
+                let t = *self.rng.pick(&["ms/", "ms2//", "d1/ms/", "d2/", "d1/dd/ms/", "d1/dd//", "f1/x/", "d2/ms//"]);
+                let (path, dotdot) = self.rel(t);
+                if dotdot {
+                    return; // creating through `..` is the catalogued divergence D4
+                }
+                let acc = *self.rng.pick(&["r", "w", "rw", "w"]);
+                let fl = *self.rng.pick(&["c", "ct", "ca", "cx", "ce"]);
+                let fl = if acc == "r" && fl == "ct" { "c" } else { fl };
+                let fl = if fl == "cx" && (t == "d2/" || t == "d1/dd//") { "c" } else { fl };
+                let mode = *self.rng.pick(&["666", "644", "600"]);
+                self.ops.push(format!("open {path} {acc} {fl} {mode}"));
+                self.upper += 1;
+                if self.rng.chance(1, 2) {
+                    let (p2, _) = self.rel(t.trim_end_matches('/'));
+                    self.ops.push(format!("stat {p2}"));
+                }
+            }
+            // `is_executable_file` (command search): regular files with and without execute bits, directories,
+            // missing files, paths through a regular file, trailing slashes, the empty path (was divergence D21)
+            "cmdsearch" => {
+                if self.rng.chance(1, 3) {
+                    // make an executable (or not) regular file: mode & ~umask decides
+                    let t = *self.rng.pick(&["m1", "m2", "d1/m", "d2/n"]);
+                    let (path, dotdot) = self.rel(t);
+                    if !dotdot {
+                        let mode = *self.rng.pick(&["777", "755", "700", "100", "10", "1", "644", "666", "711"]);
+                        self.ops.push(format!("open {path} w c {mode}"));
+                        self.upper += 1;
+                    }
+                }
+                let t = *self.rng.pick(&[
+                    "m1", "m2", "d1/m", "d2/n", "d1", "d2", "d1/dd", "f1", "d1/g", "nofile", "f1/x", "m1/", "d1/", "m1/.",
+                    "d1/../m1", "./m2", "d1//m", "-", "-", ".", "..", "d1/dd/..",
+                ]);
+                if t == "-" {
+                    self.ops.push("isx -".to_string());
+                } else {
+                    let (path, _) = self.rel(t);
+                    self.ops.push(format!("isx {path}"));
+                }
             }
             "lsfull" => {
                 if self.upper < self.limit {
@@ -1413,7 +1512,12 @@ fn show_wait<S: yash_env::system::Signals>(st: yash_env::job::ProcessState) -> S
 }
 
 /// every operation except `fork[…]` and `exit`; `None` = unknown operation
-async fn sig_op<S>(sys: &S, op: &str, pending: &dyn Fn() -> Vec<&'static str>) -> Option<String>
+async fn sig_op<S>(
+    sys: &S,
+    op: &str,
+    pending: &dyn Fn() -> Vec<&'static str>,
+    last_child: Option<yash_env::job::Pid>,
+) -> Option<String>
 where
     S: yash_env::system::Sigmask
         + yash_env::system::Sigaction
@@ -1461,6 +1565,15 @@ where
         ["kself", s] => unit(sys.kill(sys.getpid(), Some(signum::<S>(s)?)).await),
         ["kgrp", s] => unit(sys.kill(yash_env::job::Pid::MY_PROCESS_GROUP, Some(signum::<S>(s)?)).await),
         ["kpar", s] => unit(sys.kill(sys.getppid(), Some(signum::<S>(s)?)).await),
+        // kill(pid of the most recent child, S) — `0` = the null signal; every child has been waited for by the
+        // time the parent gets here, so the pid names no process any more (ESRCH on a real kernel)
+        ["klast", s] => match last_child {
+            None => "?".to_string(),
+            Some(pid) => {
+                let sig = if *s == "0" { None } else { Some(signum::<S>(s)?) };
+                unit(sys.kill(pid, sig).await)
+            }
+        },
         ["pend"] => format!("={}", show_names(pending())),
         ["mask"] => {
             let mut old = S::Sigset::new();
@@ -1499,12 +1612,12 @@ where
         + yash_env::system::CaughtSignals
         + yash_env::system::GetPid,
 {
-    let pend = sig_op(sys, "pend", pending).await.unwrap_or_default();
-    let mask = sig_op(sys, "mask", pending).await.unwrap_or_default();
-    let caught = sig_op(sys, "caught", pending).await.unwrap_or_default();
+    let pend = sig_op(sys, "pend", pending, None).await.unwrap_or_default();
+    let mask = sig_op(sys, "mask", pending, None).await.unwrap_or_default();
+    let caught = sig_op(sys, "caught", pending, None).await.unwrap_or_default();
     let mut disp = String::new();
     for n in PSIGS {
-        disp.push_str(sig_op(sys, &format!("get {n}"), pending).await.unwrap_or_default().trim_start_matches('='));
+        disp.push_str(sig_op(sys, &format!("get {n}"), pending, None).await.unwrap_or_default().trim_start_matches('='));
     }
     format!("| pend{pend} mask{mask} caught{caught} disp={disp}")
 }
@@ -1542,6 +1655,7 @@ fn proc_virtual(ops: &[String]) -> String {
     let (toks2, done2, ops2) = (Rc::clone(&toks), Rc::clone(&done), ops.to_vec());
     let main = async move {
         let sys = system;
+        let mut last_child: Option<yash_env::job::Pid> = None;
         for op in &ops2 {
             if let Some(cops) = fork_body(op) {
                 let out: Rc<RefCell<Vec<String>>> = Rc::new(RefCell::new(vec![]));
@@ -1555,7 +1669,7 @@ fn proc_virtual(ops: &[String]) -> String {
                                 break;
                             }
                             let c2 = csys.clone();
-                            let t = sig_op(&csys, cop, &move || virtual_pending(&c2)).await;
+                            let t = sig_op(&csys, cop, &move || virtual_pending(&c2), None).await;
                             out.borrow_mut().push(t.unwrap_or_else(|| "?".into()));
                         }
                         csys.exit(yash_env::semantics::ExitStatus(code)).await;
@@ -1564,6 +1678,7 @@ fn proc_virtual(ops: &[String]) -> String {
                 let tok = match res {
                     Err(e) => errno_name(e),
                     Ok(pid) => {
+                        last_child = Some(pid);
                         let mut rounds = 0;
                         let st = loop {
                             match sys.wait(pid) {
@@ -1584,7 +1699,7 @@ fn proc_virtual(ops: &[String]) -> String {
                 toks2.borrow_mut().push(tok);
             } else {
                 let s2 = sys.clone();
-                let t = sig_op(&sys, op, &move || virtual_pending(&s2)).await;
+                let t = sig_op(&sys, op, &move || virtual_pending(&s2), last_child).await;
                 toks2.borrow_mut().push(t.unwrap_or_else(|| "?".into()));
             }
         }
@@ -1657,6 +1772,7 @@ fn proc_real_p0(ops: &[String]) {
     }
     // SAFETY: the only RealSystem instance of this process
     let sys = unsafe { RealSystem::new() };
+    let mut last_child: Option<yash_env::job::Pid> = None;
     for op in ops {
         if let Some(cops) = fork_body(op) {
             raw_write("{");
@@ -1671,13 +1787,16 @@ fn proc_real_p0(ops: &[String]) {
                         code = n.trim().parse().unwrap_or(0);
                         break;
                     }
-                    let t = sig_op(&csys, cop, &real_pending).await;
+                    let t = sig_op(&csys, cop, &real_pending, None).await;
                     raw_write(&format!("{},", t.unwrap_or_else(|| "?".into())));
                 }
                 csys.exit(yash_env::semantics::ExitStatus(code)).await;
             });
             let pid = match res {
-                Ok(pid) => pid.0,
+                Ok(pid) => {
+                    last_child = Some(pid);
+                    pid.0
+                }
                 Err(e) => {
                     raw_write(&format!("}}{} ", errno_name(e)));
                     continue;
@@ -1694,7 +1813,7 @@ fn proc_real_p0(ops: &[String]) {
             };
             raw_write(&format!("}}{st} "));
         } else {
-            let t = futures_executor::block_on(sig_op(&sys, op, &real_pending));
+            let t = futures_executor::block_on(sig_op(&sys, op, &real_pending, last_child));
             raw_write(&format!("{} ", t.unwrap_or_else(|| "?".into())));
         }
     }
@@ -1919,13 +2038,35 @@ fn gen_sig_op(rng: &mut Rng, me: &mut SimProc, parent: Option<&mut SimProc>, all
     })
 }
 
-fn gen_proc(rng: &mut Rng, thorough: bool) -> String {
+/// exit statuses a child passes to `exit`: up to 255 in the ordinary classes …
+const EXIT_SMALL: [u32; 10] = [0, 1, 2, 3, 126, 127, 128, 129, 200, 255];
+/// … and beyond 8 bits (a real kernel reports N & 255; the simulator reported N: divergence D18, fixed in
+/// /repo) — always in class `exit8`, now and then elsewhere
+/// (no status 384+n where n is a signal number on one of the two systems only: a shell that exits with such a
+/// status kills itself with signal n instead — `exit_or_raise` — and the two systems number their signals
+/// differently by design; 386, 393, 399 = INT, KILL, TERM have the same number on both)
+const EXIT_BIG: [u32; 16] = [256, 257, 258, 300, 383, 384, 386, 393, 399, 511, 768, 1000, 4660, 65535, 65536, 2147483647];
+/// signals sent to the pid of a reaped child (`0` = the null signal): ESRCH (the simulator answered success:
+/// divergence D20, fixed in /repo) — emphasised in class `reaped`
+const KLAST: [&str; 10] = ["0", "0", "0", "0", "URG", "CHLD", "WINCH", "USR1", "TERM", "INT"];
+
+/// classes of process/signal cases: `sig` (ordinary), `exit8` (a child exits with a status above 255),
+/// `reaped` (the parent signals the pid of a child it has already waited for)
+fn gen_proc(rng: &mut Rng, thorough: bool, class: &str) -> String {
     let mut p0 = SimProc::new();
     let mut ops: Vec<String> = vec![];
     let n = 5 + rng.below(if thorough { 22 } else { 14 });
     let mut forks = 0;
-    while ops.len() < n && p0.alive {
-        if rng.chance(1, 5) && forks < 4 {
+    let mut big_used = false;
+    while (ops.len() < n || (class != "sig" && forks == 0)) && p0.alive {
+        if forks > 0 && rng.chance(1, if class == "reaped" { 4 } else { 14 }) {
+            ops.push(format!("klast {}", rng.pick(&KLAST)));
+            if rng.chance(1, 2) {
+                ops.push("pend".to_string());
+            }
+            continue;
+        }
+        if (rng.chance(1, 5) || (class != "sig" && forks == 0 && ops.len() + 2 >= n)) && forks < 4 {
             forks += 1;
             if p0.caught.iter().any(|c| *c) {
                 // an uncollected catch record is copied into the child by RealSystem (user-space record):
@@ -1962,8 +2103,15 @@ fn gen_proc(rng: &mut Rng, thorough: bool) -> String {
                     cops.push(op);
                 }
             }
-            if child.alive && rng.chance(1, 2) {
-                cops.push(format!("exit {}", rng.below(4)));
+            if class == "exit8" && child.alive && (!big_used || rng.chance(1, 2)) {
+                big_used = true;
+                cops.push(format!("exit {}", rng.pick(&EXIT_BIG)));
+            } else if child.alive && rng.chance(1, 2) {
+                if rng.chance(1, 5) {
+                    cops.push(format!("exit {}", rng.pick(&EXIT_BIG)));
+                } else {
+                    cops.push(format!("exit {}", rng.pick(&EXIT_SMALL)));
+                }
             }
             p0.generate(I_CHLD); // SIGCHLD
             ops.push(format!("fork[{}]", cops.join(", ")));
@@ -1971,7 +2119,11 @@ fn gen_proc(rng: &mut Rng, thorough: bool) -> String {
             ops.push(op);
         }
     }
-    format!("P sig; {}", ops.join("; "))
+    if class == "reaped" && forks > 0 && p0.alive {
+        ops.push(format!("klast {}", rng.pick(&KLAST)));
+        ops.push("pend".to_string());
+    }
+    format!("P {class}; {}", ops.join("; "))
 }
 
 fn run_proc_case(case: &str) {
@@ -2057,6 +2209,7 @@ fn shell_virtual(script: &str) -> String {
 
     let system = VirtualSystem::new();
     let state = Rc::clone(&system.state);
+    let main_pid = system.process_id;
     populate_virtual(&state, "", true);
     if wants_links(script) {
         for (name, target) in LINKS {
@@ -2084,6 +2237,9 @@ fn shell_virtual(script: &str) -> String {
         let work = configure_environment(&mut env, run).await;
         let status = eval_source(&mut env, &work.source).await;
         result2.set(Some(status));
+        // `run_as_shell_process` ends with `exit_or_raise(&env.system, env.exit_status)`: the process state
+        // this leaves behind is what an observer of the shell process sees (read below)
+        yash_env::semantics::exit_or_raise(&env.system, yash_env::semantics::ExitStatus(status)).await;
     };
     let runner = async move { concurrent.run_virtual(main).await };
     // SAFETY: single-threaded, as in yash_env::test_helper::in_virtual_system
@@ -2105,6 +2261,16 @@ fn shell_virtual(script: &str) -> String {
         }
     };
     let Some(status) = status else { return "STUCK".to_string() };
+    // what an observer of the shell process sees is the process state `exit_or_raise` left behind, not the
+    // shell's own variable
+    let status = {
+        use yash_env::job::{ProcessResult, ProcessState};
+        match state.borrow().processes.get(&main_pid).map(|p| p.state()) {
+            Some(ProcessState::Halted(ProcessResult::Exited(e))) => e.0,
+            Some(ProcessState::Halted(ProcessResult::Signaled { signal, .. })) => 384 + signal.as_raw(),
+            _ => status,
+        }
+    };
     let stdout = yverif::shell::read_file(&state, "/dev/stdout").unwrap_or_default();
     let root = Rc::clone(&state.borrow().file_system.root);
     let mut lines = vec![];
@@ -2233,7 +2399,7 @@ fn run_shell_case(tag: &str, script: &str) {
 /// (tag, script template); `%` is replaced by a per-instance suffix.  Tag `clean` = no catalogued
 /// divergence is involved.  Only built-ins of the real binary are used (`alias` without aliases is
 /// the do-nothing regular built-in, `typeset -p` the printer).
-const FRAGMENTS: [(&str, &str); 91] = [
+const FRAGMENTS: [(&str, &str); 121] = [
     ("clean", "x%=one; typeset -p x% >o%; x%=two; typeset -p x% >o%; read -r l <o%; typeset -p l"),
     ("clean", "x%=ap; typeset -p x% >>a%; x%=bp; typeset -p x% >>a%; umask >>a%"),
     ("clean", "set -C; alias >f1; s=$?; typeset -p s; typeset -p s >|f1; alias >n%; set +C; read -r l <f1; typeset -p l"),
@@ -2325,6 +2491,53 @@ const FRAGMENTS: [(&str, &str); 91] = [
     ("clean", "exec 3<f1; exec 4<<END\nfour%\nEND\nread -r a <&4; read -r b <&3; exec 3<&- 4<&-; s=$?; typeset -p a b s"),
     ("clean", "exec 3<<END\nsub%\nkept\nEND\n(read -r c <&3; typeset -p c); y%=$(read -r d <&3; typeset -p d); typeset -p y%; alias >&3; s=$?; typeset -p s; exec 4<&3 3<&-; read -r e <&4; t=$?; typeset -p e t; exec 4<&-"),
     ("clean", "{ read -r a <&3; read -r b; typeset -p a b; } 3<<E3 <<E0\nthree%\nE3\nzero\nE0\nalias 3<<END 4<&3\nx\nEND\ns=$?; typeset -p s; read -r q <&3; s=$?; typeset -p s"),
+    // ---- exit statuses through every kind of subshell.  `@E` is a status above 255 when the fragment is used
+    // under its tag `exit8` (a real kernel hands the parent N & 255; the simulator N: divergence D18) and a
+    // status up to 255 when the same fragment is used as a `clean` one.
+    ("exit8", "(exit @E); s=$?; typeset -p s"),
+    ("exit8", "x%=$(exit @E); s=$?; typeset -p s x%; y%=$(typeset -p PWD; exit @E); s=$?; typeset -p s y%"),
+    ("exit8", "alias | (exit @E); s=$?; typeset -p s; alias | exit @E; s=$?; typeset -p s; (exit @E) | alias; s=$?; typeset -p s"),
+    ("exit8", "(exit @E) & wait $!; s=$?; typeset -p s; (exit 3) & (exit @E) & wait $!; s=$?; wait; typeset -p s"),
+    ("exit8", "(exit @E) && typeset -p PWD; (exit @E) || typeset -p PWD >or%; ! (exit @E); s=$?; typeset -p s"),
+    ("exit8", "f%() { return @E; }; f%; s=$?; typeset -p s; (f%); s=$?; typeset -p s; y%=$(f%); s=$?; typeset -p s"),
+    ("exit8", "( (exit @E); exit ); s=$?; typeset -p s; ( (exit @E) ); s=$?; typeset -p s; ( x%=$(exit @E) ); s=$?; typeset -p s"),
+    ("exit8", "(trap 'exit @E' EXIT); s=$?; typeset -p s; (trap 'typeset -p PWD' EXIT; exit @E); s=$?; typeset -p s"),
+    ("exit8", "(set -e; (exit @E); typeset -p PWD >se%); s=$?; typeset -p s"),
+    ("exit8", "if (exit @E); then typeset -p PWD; else typeset -p PWD >el%; fi; while (exit @E); do typeset -p PWD; break; done; until (exit @E); do typeset -p PWD >un%; break; done"),
+    ("exit8", "x%=$( (exit @E) | (exit @E) ); s=$?; typeset -p s; (exit @E) | (exit @E) | (exit 1); s=$?; typeset -p s"),
+    ("exit8", "typeset -p PWD; exit @E"),
+    ("exit8", "trap 'typeset -p PWD' EXIT; (exit @E); exit"),
+    // ---- a path that ends in a slash.  Without O_CREAT the name must be a directory (agrees); with O_CREAT
+    // Linux answers EISDIR and creates nothing, the simulator creates a regular file (divergence D19)
+    ("clean", "alias <d1/; s=$?; typeset -p s; alias <f1/; s=$?; typeset -p s; alias <nofile%/; s=$?; typeset -p s; read -r l <d1/g/; s=$?; typeset -p s"),
+    ("clean", "cd d1/; typeset -p PWD; cd dd//; typeset -p PWD; cd ../../; for i in d[12]/ f*/ d1/*/ nomatch*/; do typeset -p i; done"),
+    ("clean", "alias >f1/; s=$?; typeset -p s; alias >>d1/; s=$?; typeset -p s; alias >d1/g//; s=$?; typeset -p s; read -r l <f1; typeset -p l"),
+    ("slashcreate", "alias >new%/; s=$?; typeset -p s"),
+    ("slashcreate", "alias >>d1/n%//; s=$?; typeset -p s; alias <>rw%/; s=$?; typeset -p s; set -C; alias >nc%/; s=$?; typeset -p s; set +C"),
+    ("slashcreate", "exec 4>ex%/; s=$?; typeset -p s; x%=v; typeset -p x% >&4; s=$?; typeset -p s; (alias >sub%/); s=$?; typeset -p s"),
+    // ---- signals to the pid of a child that has been waited for (ESRCH on a real kernel; the simulator never
+    // forgets a process: divergence D20).  Before the `wait` the pid names the child or its zombie: agrees.
+    ("clean", "(exit 3) & kill -s 0 $!; s=$?; wait $!; t=$?; typeset -p s t; wait $!; u=$?; typeset -p u"),
+    ("reaped", "(exit 3) & wait $!; s=$?; kill -s 0 $!; t=$?; typeset -p s t"),
+    ("reaped", "(exit 3) & p%=$!; wait; kill -0 $p%; t=$?; typeset -p t; kill -s USR1 $p%; t=$?; typeset -p t"),
+    ("reaped", "x%=$( (exit 2) & wait $!; kill -s 0 $!; s=$?; typeset -p s); typeset -p x%"),
+    ("reaped", "trap 'c%=1' CHLD; (exit 3) & wait $!; c%=0; kill -s TERM $!; t=$?; typeset -p t c%; trap - CHLD"),
+    // the shapes of O_CREAT-through-a-slash on which only the errno differs (existing regular file, existing
+    // directory under noclobber, missing parent): a script sees a failing redirection and no new file on both
+    ("slashcreate", "alias >>f1/; s=$?; typeset -p s; set -C; alias >d2/; s=$?; typeset -p s; alias >d1/g/; s=$?; typeset -p s; set +C; alias >nd%/x/; s=$?; typeset -p s; alias >f1/x%/; s=$?; typeset -p s"),
+    // ---- command search (is_executable_file; was divergence D21): a directory or a non-executable regular file
+    // named like the command in a $PATH entry is not found (127, not 126), nor is the empty command name.
+    // Always in a subshell: $PATH stays as it was for the fragments that follow.
+    ("cmdsearch", "(PATH=$PWD/d1; dd; s=$?; typeset -p s; g; s=$?; typeset -p s; nosuch%; s=$?; typeset -p s)"),
+    ("cmdsearch", "(PATH=$PWD/d1:$PWD/d2; ''; s=$?; typeset -p s; PATH=; ''; s=$?; typeset -p s; PATH=$PWD; ''; s=$?; typeset -p s)"),
+    ("cmdsearch", "(PATH=$PWD:$PWD/d1:$PWD/nodir%; d1; s=$?; typeset -p s; f1; s=$?; typeset -p s; dd; s=$?; typeset -p s; x%=$(d2); s=$?; typeset -p s x%)"),
+    ("cmdsearch", "(PATH=$PWD/d1; command -v dd; s=$?; typeset -p s; command -v g; s=$?; typeset -p s; command -v ''; s=$?; typeset -p s; command -v alias >cv%; s=$?; typeset -p s)"),
+    ("cmdsearch", "(PATH=$PWD/f1:$PWD/d1/g:$PWD/d1/; dd; s=$?; typeset -p s; g; s=$?; typeset -p s; dd | alias; s=$?; typeset -p s; dd & wait $!; s=$?; typeset -p s)"),
+];
+
+const SH_EXIT_SMALL: [&str; 10] = ["0", "1", "2", "3", "126", "127", "128", "129", "200", "255"];
+const SH_EXIT_BIG: [&str; 16] = [
+    "256", "257", "258", "300", "383", "384", "386", "393", "399", "511", "768", "1000", "4660", "65535", "65536", "2147483647",
 ];
 
 fn gen_script(rng: &mut Rng, allow_known: bool) -> (String, String) {
@@ -2337,22 +2550,44 @@ fn gen_script(rng: &mut Rng, allow_known: bool) -> (String, String) {
         tries += 1;
         let i = rng.below(FRAGMENTS.len());
         let (tag, text) = FRAGMENTS[i];
-        if tag != "clean" {
-            // at most one catalogued divergence per script, and it comes last: what follows a
-            // divergence would differ as a consequence and hide anything new
+        // `mkparent`, `dotdot`: the catalogued divergences D1, D4.  At most one per script, and it comes last: what
+        // follows a divergence would differ as a consequence and hide anything new.  Every other tag is an
+        // emphasis tag (former divergences D18-D21, fixed in /repo): an ordinary fragment.
+        let known = tag == "mkparent" || tag == "dotdot";
+        if known {
             if !allow_known || known_used || parts.len() + 1 < n {
                 continue;
             }
             known_used = true;
-            tags.push(tag);
         }
+        // a fragment that ends the script (`exit N` at top level) can only be the last one
+        if text.contains("; exit") && parts.len() + 1 < n {
+            continue;
+        }
+        if tag != "clean" && !tags.contains(&tag) {
+            if known {
+                tags.insert(0, tag);
+            } else {
+                tags.push(tag);
+            }
+        }
+        let exit_values: &[&str] = if rng.chance(1, 2) { &SH_EXIT_BIG } else { &SH_EXIT_SMALL };
         let suffix = format!("{}", parts.len());
         let fd = format!("{}", 3 + rng.below(6));
         let um = *rng.pick(&["022", "027", "077", "002", "000", "137", "026"]);
         let word = *rng.pick(&["alpha", "b-c", "x y", "q=r", "tab\there"]);
-        parts.push(text.replace('%', &suffix).replace("@F", &fd).replace("@U", um).replace("@W", &format!("'{word}'")));
+        let mut text = text.replace('%', &suffix).replace("@F", &fd).replace("@U", um).replace("@W", &format!("'{word}'"));
+        while text.contains("@E") {
+            text = text.replacen("@E", rng.pick(exit_values), 1);
+        }
+        parts.push(text);
     }
-    let tag = if tags.is_empty() { "clean".to_string() } else { tags.join("+") };
+    // a script with a catalogued divergence carries that tag alone (KNOWN_FINDINGS.txt is keyed on it)
+    let tag = match tags.first() {
+        None => "clean".to_string(),
+        Some(t) if *t == "mkparent" || *t == "dotdot" => t.to_string(),
+        Some(_) => tags.join("+"),
+    };
     (tag, parts.join("\n"))
 }
 
@@ -2403,24 +2638,43 @@ fn main() {
         return;
     }
     let thorough = opts.thorough();
+    let thorough_all = thorough;
     // every fragment alone (fixed part of the run)
     for (tag, text) in FRAGMENTS {
-        if mine(&mut index) {
-            run_shell_case(tag, &text.replace('%', "0").replace("@F", "7").replace("@U", "027").replace("@W", "'a b'"));
+        let text = text.replace('%', "0").replace("@F", "7").replace("@U", "027").replace("@W", "'a b'");
+        if tag == "exit8" {
+            // once per status beyond 8 bits under the tag, once per small status as an ordinary fragment
+            for (k, big) in SH_EXIT_BIG.iter().enumerate() {
+                if (thorough_all || k % 5 == 3) && mine(&mut index) {
+                    run_shell_case(tag, &text.replace("@E", big));
+                }
+            }
+            for (k, small) in SH_EXIT_SMALL.iter().enumerate() {
+                if (thorough_all || k % 4 == 1) && mine(&mut index) {
+                    run_shell_case(tag, &text.replace("@E", small));
+                }
+            }
+        } else if mine(&mut index) {
+            run_shell_case(tag, &text);
         }
     }
     let mut rng = Rng::new(opts.seed ^ 0xC19C_19C1);
     let n_seq = if thorough { 100_000 } else { 2_400 };
     for i in 0..n_seq {
-        let class = if i % 5 < 3 { "clean" } else { CLASSES[1 + (i / 5) % 12] };
+        let class = if i % 5 < 3 { "clean" } else { CLASSES[1 + (i / 5) % 14] };
         let case = gen_seq(&mut rng, class, thorough);
         if mine(&mut index) {
             run_seq_case(&case);
         }
     }
     let n_proc = if thorough { 60_000 } else { 1_500 };
-    for _ in 0..n_proc {
-        let case = gen_proc(&mut rng, thorough);
+    for i in 0..n_proc {
+        let class = match i % 10 {
+            3 | 8 => "exit8",
+            5 => "reaped",
+            _ => "sig",
+        };
+        let case = gen_proc(&mut rng, thorough, class);
         if mine(&mut index) {
             run_proc_case(&case);
         }
